@@ -125,6 +125,8 @@ impl Macro {
 
 #[derive(Clone, PartialEq, Eq, Debug)]
 pub struct ParseContext {
+    /// how deep .include of current file is nested
+    pub include_depth: usize,
     pub current_path: PathBuf,
     pub include_paths: RefCell<Paths>,
     // common part
@@ -144,6 +146,7 @@ impl ParseContext {
         common_context: CommonContext,
     ) -> Self {
         Self {
+            include_depth: 0,
             current_path,
             include_paths,
             common_context,
@@ -220,7 +223,15 @@ pub fn parse_file(
 }
 
 pub fn parse_file_internal(context: &ParseContext) -> Result<(), Error> {
+    if context.include_depth > MAX_INCLUDE_DEPTH {
+        bail!(
+            "Cannot read file {} because includes are recursive or nested too deep",
+            context.current_path.to_string_lossy()
+        );
+    }
+
     let ParseContext {
+        include_depth,
         current_path,
         include_paths,
         common_context,
@@ -272,6 +283,7 @@ pub fn parse_file_internal(context: &ParseContext) -> Result<(), Error> {
     let include_paths = RefCell::new(include_paths);
 
     let inner_context = ParseContext {
+        include_depth,
         current_path,
         include_paths,
         common_context,
@@ -290,6 +302,9 @@ pub fn parse_file_internal(context: &ParseContext) -> Result<(), Error> {
 
     Ok(())
 }
+
+/// How deep files may include other files
+const MAX_INCLUDE_DEPTH: usize = 64;
 
 /// Grammar parser is recursive: every opened parenthesis and every unary
 /// operator costs a piece of the stack, so limit how deep a line may nest
